@@ -134,17 +134,37 @@ def _random_static(ctx):
         ('beartype._check.signature.sigmake', 'make_func_signature', 'CODE_INIT_RANDOM_INT'),
         ('beartype._check.checkmake', '_get_func_scope_arg_random_int', 'CODE_GET_VIOLATION_RANDOM_INT'),
     ]
-    for modname, fname, const in checks:
-        m = ctx.repo.mod(modname)
-        fn = m.defs.get(fname)
-        ctx.require(fn is not None, f'anchor vanished: {modname}.{fname}')
-        ok, detail = False, f'no conditional on ARG_NAME_GETRANDBITS selecting {const}'
-        for n in walk_shallow(fn):
-            if isinstance(n, ast.IfExp) and const in norm(n.body) and 'ARG_NAME_GETRANDBITS in' in norm(n.test):
-                ok = isinstance(n.orelse, ast.Constant) and n.orelse.value == ''
-                detail = f'else-arm is {norm(n.orelse)}'
-        ctx.ob('C02.R2', f'static:{fname}:{const}', m.where(fn),
-               f'{fname} emits {const} iff getrandbits is in the scope', ok, detail)
+    from sa.fold import FuncVal, _Abort, _Raise, _call_function
+    from sa.gen import AConf
+    gname = F.const('beartype._data.check.code.func.datacodefuncwrap', 'ARG_NAME_GETRANDBITS') \
+        if 'ARG_NAME_GETRANDBITS' in F.module_env('beartype._data.check.code.func.datacodefuncwrap') else getr
+    saved_i = F.isinstance_hook
+    F.isinstance_hook = lambda o, c: True if isinstance(o, AConf) else (saved_i(o, c) if saved_i else None)
+    try:
+        for modname, fname, const in checks:
+            m = ctx.repo.mod(modname)
+            fv = F.const(modname, fname)
+            ctx.require(isinstance(fv, FuncVal), f'anchor vanished: {modname}.{fname}')
+            snippet = F.const(*{'CODE_INIT_RANDOM_INT': ('beartype._data.check.code.func.datacodefuncwrap', 'CODE_INIT_RANDOM_INT'),
+                                'CODE_GET_VIOLATION_RANDOM_INT': ('beartype._data.check.code.func.datacodefunccheck', 'CODE_GET_VIOLATION_RANDOM_INT')}[const])
+            for present in (True, False):
+                scope = {'__beartype_object_1': 'X'}
+                if present:
+                    scope[gname] = 'getrandbits'
+                kw = dict(func_scope=scope)
+                if fname == 'make_func_signature':
+                    kw.update(func_name='f', code_signature_format='{code_signature_prefix}def {func_name}({code_signature_scope_args}):\n',
+                              conf=AConf(is_debug=False))
+                try:
+                    out = _call_function(F, fv, [], kw, 1)
+                except (_Abort, _Raise) as ex:
+                    ctx.require(False, f'cannot interpret {fname}: {ex}')
+                has = isinstance(out, str) and snippet.strip() != '' and snippet in out
+                ctx.ob('C02.R2', f'static:{fname}:{const}:getrandbits-in-scope={present}', m.where(fv.node),
+                       f'{fname} emits {const} iff getrandbits is in the scope', has == present,
+                       f'evaluates to {out!r}')
+    finally:
+        F.isinstance_hook = saved_i
     # the draw itself: one assignment of the random variable from getrandbits(32), straight-line
     init = F.const('beartype._data.check.code.func.datacodefuncwrap', 'CODE_INIT_RANDOM_INT')
     try:
